@@ -253,6 +253,16 @@ fn simpler(e: &Ev, timeout: u128) -> Vec<Ev> {
                 }
             }
         }
+        Ev::Repeat { k, n } => {
+            for t in [1u16, 2, n / 2, n - 1] {
+                if t >= 1 && t < *n {
+                    v.push(Ev::Repeat { k: *k, n: t });
+                }
+            }
+            if *k > 1 {
+                v.push(Ev::Repeat { k: *k - 1, n: *n });
+            }
+        }
         Ev::Poll { .. } | Ev::Reset | Ev::Snapshot | Ev::Restore => {}
     }
     v
